@@ -8,18 +8,19 @@
    injected cause (err = "cause") and a count n <= delta.
    Reader half (harness/demux.go with a fault-injecting io.Reader):
      reset  t, kind = "rfault"
+     clean  dg                      the fault-free run's results, in order
+     rstart off partial seek        a new run with the reader failing at byte offset off
      rcall  api, res (ok|nomore|cause|other|panic), rfail (the injected failure
-            fired during this call), idx (position of the delivery in the clean
-            run's output, -1 = not a member / not next), dg
+            fired during this call), dg
    Rule: the call during which the reader failed returns an error wrapping the
    cause (never ErrNoMorePackets, never a panic); every delivery before it is
    the next element of the fault-free output (prefix). *)
 EXTENDS MonBase
 VARIABLES l, st
 vars == <<l, st>>
-St0(t, mode, i) == [tr |-> t, mode |-> mode, at |-> i, next |-> 0, failed |-> FALSE]
+St0(t, mode, i) == [tr |-> t, mode |-> mode, at |-> i, next |-> 0, failed |-> FALSE, clean |-> <<>>, auto |-> FALSE]
 Init == l = 1 /\ st = St0("none", "none", 0)
-V(kind, s, more) == [prop |-> "C18", kind |-> kind, trace |-> s.tr, at |-> s.at, mode |-> s.mode] @@ more
+V(kind, s, more) == [prop |-> "C18", kind |-> kind, trace |-> s.tr, at |-> s.at, mode |-> s.mode, auto |-> s.auto] @@ more
 
 OnCall(s, e, i) ==
   LET s0 == [s EXCEPT !.at = i] IN
@@ -36,11 +37,14 @@ OnRCall(s, e, i) ==
   ELSE IF s.failed THEN s0                                  \* after the failing call nothing is required
   ELSE IF e.res = "ok" THEN
        LET s1 == [s0 EXCEPT !.next = s.next + 1] IN
-       RepIf(e.idx # s.next, s1, V("not-a-prefix", s0, [api |-> e.api, idx |-> e.idx, want |-> s.next]))
+       RepIf(s.next + 1 > Len(s.clean) \/ (s.next + 1 <= Len(s.clean) /\ s.clean[s.next + 1] # e.dg), s1,
+             V("not-a-prefix", s0, [api |-> e.api, pos |-> s.next + 1, off |-> e.off]))
   ELSE RepIf(e.res = "panic", s0, V("panic", s0, [api |-> e.api]))
 
 Step(s, e, i) ==
-  CASE e.ev = "reset" -> St0(e.t, Get(e, "fmode", "reader"), i)
+  CASE e.ev = "reset" -> [St0(e.t, Get(e, "fmode", "reader"), i) EXCEPT !.auto = Get(e, "auto", FALSE)]
+    [] e.ev = "clean" -> [s EXCEPT !.clean = Append(s.clean, e.dg)]
+    [] e.ev = "rstart" -> [s EXCEPT !.next = 0, !.failed = FALSE, !.at = i]
     [] e.ev = "call" -> OnCall(s, e, i)
     [] e.ev = "rcall" -> OnRCall(s, e, i)
     [] OTHER -> s
